@@ -14,6 +14,16 @@ package main
 //   stall   an HTTP request is put in flight on a serving webui (complete headers, unfinished body) and kept there:
 //           a later SIGINT / SIGTERM starts the graceful shutdown, which waits for that request, so the process stays
 //           alive, still working on its cache ("asked"); the next `end` of that process lets the request end
+//   stop    a live holder is SUSPENDED: SIGSTOP, or SIGTSTP (what ctrl-z sends), and seen in state T of /proc/<pid>/stat.
+//           It is alive: its cache is open, it goes on when continued. Every attempt made meanwhile must be refused
+//           naming it, its lock must stay. `cont` = SIGCONT. An orderly `end` of a stopped process continues it first
+//           (recorded as a step of its own); SIGKILL needs no continuation.
+//   zombie  a live holder is SIGKILLed and NOT collected by its parent (the harness controls the reaping of every child:
+//           waitid(WNOWAIT) tells that it has exited, the wait that collects it is held back): state Z, dead, nothing
+//           held, but kill(pid, 0) still answers. `reap` collects it. What the unchanged code does — the lock of an
+//           unreaped holder refuses — is what the model says; the property demands nothing for that interval.
+//   Whatever happens, every process is SIGKILLed (which a stopped process obeys) and collected when the case ends;
+//   children carry PR_SET_PDEATHSIG = SIGKILL, so a harness that dies leaves no stopped process behind either.
 // After every step: exit status, class of the stderr message (with the holder it names), content of
 // .git/git-bug/lock, the temporary lock files .git/git-bug/lock.<pid> present, whether anything else below .git
 // changed during the step (looked at while a holder lives), and which long-lived processes are still running.
@@ -44,8 +54,10 @@ import (
 	"sort"
 	"strconv"
 	"strings"
+	"sync"
 	"syscall"
 	"time"
+	"unsafe"
 
 	"github.com/MichaelMure/git-bug/repository"
 )
@@ -270,7 +282,7 @@ func c19AssignUsers(r *Rand, in *c19Input, mode int) {
 				s.U = []int{1, 2, 5, 6}[r.Intn(4)]
 				live = true
 			}
-		case "end":
+		case "end", "zombie":
 			live = false
 		case "usernew", "cmd", "killat":
 			if live || i > 0 && r.Chance(1, 2) {
@@ -334,6 +346,136 @@ func c19GenCross(r *Rand, holder int) c19Input {
 	return in
 }
 
+// one attempt of any kind made next to a holder
+func c19GenAttempt(r *Rand, identity bool, holdKind string) c19Step {
+	switch y := r.Intn(10); {
+	case y < 6:
+		return c19GenCmd(r, identity)
+	case y < 8:
+		return c19Step{Op: "hold", Kind: []string{"webui", holdKind}[r.Intn(2)]}
+	case y < 9:
+		return c19GenKillAt(r, true)
+	default:
+		return c19Step{Op: "burst", N: 2}
+	}
+}
+
+// A holder that is suspended (SIGSTOP, or SIGTSTP = ctrl-z) while others try: it is alive, they are all refused, its
+// lock stays; then it is continued and ends, or is killed as it is, or is killed and left unreaped for a while.
+// zombie: the schedule is about the unreaped holder instead (no suspension, or killed while suspended).
+func c19GenSuspend(r *Rand, zombie bool) c19Input {
+	var in c19Input
+	identity := r.Chance(1, 2)
+	add := func(s ...c19Step) { in.Steps = append(in.Steps, s...) }
+	if identity {
+		add(c19Step{Op: "usernew"})
+	} else {
+		add(c19Step{Op: "cmd", Kind: "ls"})
+	}
+	kind := "webui"
+	if identity && r.Chance(1, 2) {
+		kind = "edit"
+	}
+	add(c19Step{Op: "hold", Kind: kind})
+	if r.Chance(1, 3) {
+		add(c19GenAttempt(r, identity, kind))
+	}
+	if kind == "webui" && r.Chance(1, 4) {
+		// a request in flight; every second one is also asked to stop: shutting down, waiting for the request
+		add(c19Step{Op: "stall"})
+		if r.Chance(1, 2) {
+			add(c19Step{Op: "end", How: []string{"int", "term"}[r.Intn(2)]})
+		}
+	}
+	stop := c19Step{Op: "stop", How: []string{"stop", "stop", "tstp"}[r.Intn(3)]}
+	hows := []string{"int", "term", "kill", "finok", "finerr"}
+	opens := func(lo, hi int) {
+		for k := r.Range(lo, hi); k > 0; k-- {
+			if r.Chance(1, 3) {
+				add(c19Step{Op: "hold", Kind: "webui"})
+			} else {
+				add(c19GenCmd(r, identity))
+			}
+		}
+	}
+	if zombie {
+		if r.Chance(1, 2) {
+			add(stop)
+			if r.Chance(1, 2) {
+				add(c19GenAttempt(r, identity, kind))
+			}
+		}
+		add(c19Step{Op: "zombie"})
+		for k := r.Range(1, 2); k > 0; k-- {
+			add(c19GenAttempt(r, identity, kind))
+		}
+		add(c19Step{Op: "reap"})
+		opens(1, 2)
+		return in
+	}
+	add(stop)
+	for k := r.Range(1, 3); k > 0; k-- {
+		add(c19GenAttempt(r, identity, kind))
+	}
+	switch x := r.Intn(100); {
+	case x < 45:
+		// continued; it is the holder it was
+		add(c19Step{Op: "cont"})
+		if r.Chance(1, 2) {
+			add(c19GenAttempt(r, identity, kind))
+		}
+		if r.Chance(1, 4) {
+			add(c19Step{Op: "stop", How: "tstp"}, c19GenAttempt(r, identity, kind), c19Step{Op: "cont"})
+		}
+		add(c19Step{Op: "end", How: hows[r.Intn(len(hows))]}, c19Step{Op: "end", How: "kill"}) // (the second: if the first only asked)
+		opens(1, 1)
+	case x < 65:
+		// killed as it is: the lock stays behind, stale
+		add(c19Step{Op: "end", How: "kill"})
+		opens(1, 2)
+	case x < 85:
+		// ended in an orderly way (the harness continues it first): released
+		add(c19Step{Op: "end", How: []string{"int", "term", "finok", "finerr"}[r.Intn(4)]}, c19Step{Op: "end", How: "kill"})
+		opens(1, 1)
+	default:
+		// left suspended to the end of the case
+	}
+	return in
+}
+
+// suspensions strewn over an ordinary schedule: after a hold (sometimes later) the holder is stopped, later continued
+// or not; now and then a holder is killed and left unreaped instead of being ended, and reaped some steps later
+func c19AddSuspensions(r *Rand, in c19Input) c19Input {
+	var out c19Input
+	stopped, zombies := false, 0
+	for i, s := range in.Steps {
+		if s.Op == "end" && r.Chance(1, 5) {
+			s = c19Step{Op: "zombie", Slot: s.Slot}
+			zombies++
+		}
+		if stopped && (s.Op == "end" || s.Op == "stall") && r.Chance(1, 2) {
+			out.Steps = append(out.Steps, c19Step{Op: "cont", Slot: r.Intn(2)})
+			stopped = false
+		}
+		out.Steps = append(out.Steps, s)
+		if s.Op == "end" || s.Op == "zombie" {
+			stopped = false
+		}
+		if (s.Op == "hold" || s.Op == "burst" || s.Op == "stall" || (i > 1 && s.Op == "cmd")) && r.Chance(2, 5) {
+			out.Steps = append(out.Steps, c19Step{Op: "stop", Slot: r.Intn(2), How: []string{"stop", "tstp"}[r.Intn(2)]})
+			stopped = true
+		} else if stopped && r.Chance(1, 6) {
+			out.Steps = append(out.Steps, c19Step{Op: "cont", Slot: r.Intn(2)})
+			stopped = false
+		}
+		if zombies > 0 && s.Op != "zombie" && r.Chance(1, 3) {
+			out.Steps = append(out.Steps, c19Step{Op: "reap"})
+			zombies--
+		}
+	}
+	return out
+}
+
 func (c19Driver) Gen(r *Rand, tier string) []json.RawMessage {
 	n := 420
 	if tier == "thorough" {
@@ -372,6 +514,20 @@ func (c19Driver) Gen(r *Rand, tier string) []json.RawMessage {
 		c19Input{Steps: []c19Step{{Op: "cmd", Kind: "ls", U: 1}, {Op: "hold", Kind: "webui"}, {Op: "stall"}, {Op: "end", How: "term"}, {Op: "cmd", Kind: "ls", U: 1},
 			{Op: "hold", Kind: "webui", U: 1}, {Op: "end", How: "int"}, {Op: "cmd", Kind: "ls", U: 1}}},
 	)
+	// a suspended holder is a live holder: refused while it is stopped (SIGSTOP; ctrl-z under an editor), refused after it
+	// was continued, free after its end; killed while stopped: stale; two users; a killed holder nobody has reaped yet
+	fixed = append(fixed,
+		c19Input{Steps: []c19Step{{Op: "cmd", Kind: "ls"}, {Op: "hold", Kind: "webui"}, {Op: "cmd", Kind: "ls"}, {Op: "stop"}, {Op: "cmd", Kind: "ls"}, {Op: "cmd", Kind: "new"},
+			{Op: "hold", Kind: "webui"}, {Op: "cont"}, {Op: "cmd", Kind: "ls"}, {Op: "end", How: "int"}, {Op: "cmd", Kind: "ls"}}},
+		c19Input{Steps: []c19Step{{Op: "usernew"}, {Op: "hold", Kind: "edit"}, {Op: "stop", How: "tstp"}, {Op: "cmd", Kind: "new"}, {Op: "cmd", Kind: "users"},
+			{Op: "end", How: "finok"}, {Op: "cmd", Kind: "new"}}},
+		c19Input{Steps: []c19Step{{Op: "cmd", Kind: "ls"}, {Op: "hold", Kind: "webui"}, {Op: "stop"}, {Op: "cmd", Kind: "webui-busy"}, {Op: "end", How: "kill"},
+			{Op: "cmd", Kind: "ls"}, {Op: "cmd", Kind: "ls"}}},
+		c19Input{Steps: []c19Step{{Op: "cmd", Kind: "ls"}, {Op: "hold", Kind: "webui"}, {Op: "stop"}, {Op: "cmd", Kind: "ls", U: 1}, {Op: "hold", Kind: "webui", U: 1},
+			{Op: "cont"}, {Op: "cmd", Kind: "ls", U: 1}, {Op: "end", How: "term"}, {Op: "cmd", Kind: "ls", U: 1}}},
+		c19Input{Steps: []c19Step{{Op: "cmd", Kind: "ls"}, {Op: "hold", Kind: "webui"}, {Op: "zombie"}, {Op: "cmd", Kind: "ls"}, {Op: "reap"}, {Op: "cmd", Kind: "ls"},
+			{Op: "cmd", Kind: "ls"}}},
+	)
 	for _, f := range fixed {
 		res = append(res, mustJSON(f))
 	}
@@ -386,6 +542,27 @@ func (c19Driver) Gen(r *Rand, tier string) []json.RawMessage {
 		} else {
 			in = c19GenCase(rr, tier)
 			c19AssignUsers(rr, &in, (i/2)%3)
+		}
+		res = append(res, mustJSON(in))
+	}
+	// schedules with a suspended (or unreaped) holder, on top: 4 of 6 targeted (one of them about the unreaped holder),
+	// 2 of 6 ordinary schedules with suspensions strewn in, one of these with two users
+	for i := 0; i < nx; i++ {
+		rr := r.Fork()
+		var in c19Input
+		switch i % 6 {
+		case 0, 1, 3:
+			in = c19GenSuspend(rr, false)
+		case 4:
+			in = c19GenSuspend(rr, true)
+		case 2:
+			in = c19AddSuspensions(rr, c19GenCase(rr, tier))
+		default:
+			in = c19AddSuspensions(rr, c19GenCase(rr, tier))
+			c19AssignUsers(rr, &in, rr.Intn(3))
+		}
+		if i%6 < 5 && i%4 == 3 {
+			c19AssignUsers(rr, &in, rr.Intn(2))
 		}
 		res = append(res, mustJSON(in))
 	}
@@ -410,10 +587,14 @@ type c19Proc struct {
 	mark     string
 	gofile   string
 	done     chan struct{}
-	sig      bool // the harness has sent this process a signal
-	timedOut bool // it neither served nor exited within the time limit
-	robbed   bool // ... and by then the lock file no longer named the live holder
-	user     int  // 0 = the harness's user, 1 = the other account (uid c19OtherUID)
+	sig      bool          // the harness has sent this process a signal
+	timedOut bool          // it neither served nor exited within the time limit
+	robbed   bool          // ... and by then the lock file no longer named the live holder
+	user     int           // 0 = the harness's user, 1 = the other account (uid c19OtherUID)
+	stopped  bool          // suspended by the harness (SIGSTOP / SIGTSTP) and not continued since
+	gone     chan struct{} // closed when the process has exited (it may still be a zombie)
+	reapMu   sync.Mutex    // held by the harness while the process must not be collected
+	unreaped bool          // reapMu is held: once the process has exited it stays a zombie until release()
 }
 
 // the second account: "nobody". Not root, not the harness's user: it may not signal the harness's processes.
@@ -433,6 +614,7 @@ type c19Env struct {
 	curUser              int           // the user of the processes spawned from now on
 	home2, binOther      string        // the other account's HOME; the git-bug binary at a place it can execute
 	pidReuse             string        // set when a pid of a reaped process was seen alive again (assumption violated)
+	zombies              []*c19Proc    // killed holders the harness has not collected yet
 }
 
 func (e *c19Env) procByID(id int) *c19Proc {
@@ -631,7 +813,7 @@ func (e *c19Env) waitWatching(p, h *c19Proc, limit time.Duration) (exited, robbe
 func (e *c19Env) spawn(fam, kind string, long bool, args []string, extraEnv []string) *c19Proc {
 	e.nextID++
 	id := e.nextID
-	p := &c19Proc{id: id, fam: fam, kind: kind, long: long, done: make(chan struct{})}
+	p := &c19Proc{id: id, fam: fam, kind: kind, long: long, done: make(chan struct{}), gone: make(chan struct{})}
 	p.errPath = filepath.Join(e.dir, fmt.Sprintf("p%d.err", id))
 	p.mark = filepath.Join(e.dir, fmt.Sprintf("p%d.mark", id))
 	p.gofile = filepath.Join(e.dir, fmt.Sprintf("p%d.go", id))
@@ -681,8 +863,96 @@ func (e *c19Env) spawn(fam, kind string, long bool, args []string, extraEnv []st
 	p.pid = cmd.Process.Pid
 	e.procs = append(e.procs, p)
 	e.pids[p.pid] = id
-	go func() { _ = cmd.Wait(); close(p.done) }()
+	go func() {
+		// first learn that it has exited without collecting it, then collect it unless the harness holds that back
+		c19WaitGone(p.pid)
+		close(p.gone)
+		p.reapMu.Lock()
+		_ = cmd.Wait()
+		p.reapMu.Unlock()
+		close(p.done)
+	}()
 	return p
+}
+
+// blocks until the child has exited, leaving it in the process table (waitid with WNOWAIT)
+func c19WaitGone(pid int) {
+	const pPid, wExited, wNoWait = 1, 0x4, 0x1000000
+	var info [128]byte
+	for {
+		_, _, errno := syscall.Syscall6(syscall.SYS_WAITID, pPid, uintptr(pid), uintptr(unsafe.Pointer(&info[0])), wExited|wNoWait, 0, 0)
+		if errno != syscall.EINTR {
+			return // (on any other error the ordinary wait takes over)
+		}
+	}
+}
+
+// third field of /proc/<pid>/stat: R, S, D running / sleeping; T stopped; t traced; Z zombie; 0 = no such process
+func c19ProcState(pid int) byte {
+	b, err := os.ReadFile(fmt.Sprintf("/proc/%d/stat", pid))
+	if err != nil {
+		return 0
+	}
+	i := strings.LastIndexByte(string(b), ')')
+	if i < 0 || i+2 >= len(b) {
+		return 0
+	}
+	return b[i+2]
+}
+
+func (p *c19Proc) isGone() bool {
+	select {
+	case <-p.gone:
+		return true
+	default:
+		return false
+	}
+}
+
+// from now on the process is not collected when it exits
+func (p *c19Proc) holdReap() {
+	if !p.unreaped {
+		p.reapMu.Lock()
+		p.unreaped = true
+	}
+}
+
+func (p *c19Proc) release() {
+	if p.unreaped {
+		p.unreaped = false
+		p.reapMu.Unlock()
+	}
+}
+
+// suspends a running child and waits until the kernel shows it stopped; false: it exited, or did not stop
+func (p *c19Proc) suspend(sig syscall.Signal) bool {
+	_ = p.cmd.Process.Signal(sig)
+	for t0 := time.Now(); time.Since(t0) < 10*time.Second; time.Sleep(2 * time.Millisecond) {
+		if p.isGone() {
+			return false
+		}
+		if st := c19ProcState(p.pid); st == 'T' {
+			p.stopped = true
+			return true
+		}
+	}
+	_ = p.cmd.Process.Signal(syscall.SIGCONT)
+	return false
+}
+
+// continues a stopped child and waits until it is no longer shown stopped
+func (p *c19Proc) resume() bool {
+	p.stopped = false
+	if p.isGone() {
+		return false
+	}
+	_ = p.cmd.Process.Signal(syscall.SIGCONT)
+	for t0 := time.Now(); time.Since(t0) < 10*time.Second; time.Sleep(2 * time.Millisecond) {
+		if st := c19ProcState(p.pid); st != 'T' {
+			return true
+		}
+	}
+	return false
 }
 
 func (p *c19Proc) exited() bool {
@@ -706,6 +976,8 @@ func (p *c19Proc) waitExit(d time.Duration) bool {
 // kill the process if it still runs, and reap it. A pid is never signalled once its process has been reaped:
 // with pid_max = 32768 and this many short-lived processes, pids are recycled within minutes.
 func (p *c19Proc) destroy() {
+	p.release()
+	p.stopped = false
 	if !p.exited() {
 		p.sig = true
 		_ = p.cmd.Process.Kill() // os.Process refuses to signal after Wait has returned
@@ -890,6 +1162,21 @@ func listening(port int) bool {
 	return true
 }
 
+// Does the web UI p serve? Something accepts connections on its port and p runs — but the ports of the cases that run
+// in parallel come from one range, so the listener may be another case's web UI while p has not even reached the
+// lock: p itself must have announced its server (printed after the cache was opened, before it listens). Should
+// that line ever change, a process that is still there a while later counts as well.
+func (e *c19Env) serves(p *c19Proc) bool {
+	if !listening(p.port) || p.exited() {
+		return false
+	}
+	if strings.Contains(p.stdout(), "Web UI:") {
+		return true
+	}
+	time.Sleep(200 * time.Millisecond)
+	return !p.exited() && listening(p.port) && !strings.Contains(p.stderr(), "already locked")
+}
+
 // waits until the long-lived process serves (true) or has exited (false); h: the live holder the lock file named
 // when the process was started (nil if none), see waitWatching
 func (e *c19Env) waitReady(p, h *c19Proc) bool {
@@ -916,11 +1203,8 @@ func (e *c19Env) waitReady(p, h *c19Proc) bool {
 			}
 		}
 		if p.kind == "webui" {
-			if listening(p.port) {
-				// the listener could belong to somebody else only if the port was stolen: make sure the process is there
-				if !p.exited() {
-					return true
-				}
+			if e.serves(p) {
+				return true
 			}
 		} else if _, err := os.Stat(p.mark); err == nil {
 			return true
@@ -937,7 +1221,7 @@ func (e *c19Env) aliveReady() []int {
 	var keep []*c19Proc
 	var ids []int
 	for _, p := range e.ready {
-		if !p.exited() {
+		if !p.exited() && !(p.unreaped && p.isGone()) {
 			keep = append(keep, p)
 			ids = append(ids, p.id)
 		}
@@ -1106,6 +1390,9 @@ func (c19Driver) Run(raw json.RawMessage) (res Case) {
 			tag("users:" + why)
 		} else {
 			tag("users:two")
+			// files the processes of one user create during a step (go-billy creates with 0666 &^ umask) must be
+			// usable by a process of the other user started in the same step (burst members of both users)
+			defer syscall.Umask(syscall.Umask(0))
 		}
 	} else {
 		tag("users:one")
@@ -1151,6 +1438,10 @@ func (c19Driver) Run(raw json.RawMessage) (res Case) {
 			st := "running"
 			if p.exited() {
 				st = p.exitClass()
+			} else if p.isGone() {
+				st = "exited, not collected by its parent (zombie)"
+			} else if p.stopped {
+				st = "stopped (alive, suspended)"
 			}
 			who := ""
 			if e.twoUsers {
@@ -1170,6 +1461,9 @@ func (c19Driver) Run(raw json.RawMessage) (res Case) {
 			sawLive = true
 			e.before = e.snapshot()
 			for _, h := range e.ready {
+				if h.stopped {
+					tag("suspended:attempt-next-to-stopped-holder")
+				}
 				for _, u := range users {
 					if e.twoUsers && u != h.user {
 						tag("cross:attempt-next-to-live-holder-of-other-user")
@@ -1183,6 +1477,9 @@ func (c19Driver) Run(raw json.RawMessage) (res Case) {
 			sawStale = true
 			var id int
 			_, _ = fmt.Sscanf(lk, "(LkPid %d)", &id)
+			if q := e.procByID(id); q != nil && q.unreaped {
+				tag("zombie:open-on-lock-of-unreaped-holder")
+			}
 			if q := e.procByID(id); q != nil && e.twoUsers {
 				for _, u := range users {
 					if u != q.user {
@@ -1283,6 +1580,9 @@ steps:
 			tag("path:" + path)
 			if strings.HasPrefix(m, "(MLocked") {
 				tag("refused")
+				if id, _ := c19LockedID(m); e.procByID(id) != nil && e.procByID(id).unreaped {
+					tag("zombie:lock-of-unreaped-holder-refuses")
+				}
 			}
 			if m == "MCorrupt" {
 				tag("torn-lock")
@@ -1336,6 +1636,16 @@ steps:
 				} else if how == "finerr" {
 					how = "term"
 				}
+			}
+			if p.stopped && how != "kill" {
+				// signals other than SIGKILL stay pending while a process is stopped, and an editor that has finished is
+				// not noticed: it is continued first, a step of its own
+				if !p.resume() {
+					tag("truncated:cont-before-end")
+					break steps
+				}
+				record("cont (before the end)", fmt.Sprintf("KCont %d", p.id), "SIGCONT", p)
+				tag("cont")
 			}
 			var h string
 			if p.asked != "" {
@@ -1433,7 +1743,7 @@ steps:
 			var cands []*c19Proc
 			e.aliveReady()
 			for _, q := range e.ready {
-				if q.kind == "webui" && q.conn == nil && q.asked == "" {
+				if q.kind == "webui" && q.conn == nil && q.asked == "" && !q.stopped {
 					cands = append(cands, q)
 				}
 			}
@@ -1447,6 +1757,95 @@ steps:
 			}
 			record("stall", fmt.Sprintf("KStall %d", p.id), "request in flight: headers sent, body unfinished", p)
 			tag("stall")
+
+		case "stop":
+			e.aliveReady()
+			var cands []*c19Proc
+			for _, q := range e.ready {
+				if !q.stopped {
+					cands = append(cands, q)
+				}
+			}
+			if len(cands) == 0 {
+				continue
+			}
+			p := cands[s.Slot%len(cands)]
+			sig, name := syscall.SIGSTOP, "SIGSTOP"
+			if s.How == "tstp" {
+				sig, name = syscall.SIGTSTP, "SIGTSTP (ctrl-z)"
+			}
+			if !p.suspend(sig) {
+				if p.isGone() {
+					// (it ended by itself meanwhile: the next step shows it)
+					tag("stop:exited-meanwhile")
+					continue
+				}
+				tag("truncated:stop-did-not-stop")
+				break steps
+			}
+			record("stop", fmt.Sprintf("KStop %d", p.id), name+": seen in state T", p)
+			tag("stop:" + strings.ToLower(strings.Fields(name)[0]))
+			if p.asked != "" {
+				tag("stop:while-shutting-down")
+			}
+
+		case "cont":
+			e.aliveReady()
+			var cands []*c19Proc
+			for _, q := range e.ready {
+				if q.stopped {
+					cands = append(cands, q)
+				}
+			}
+			if len(cands) == 0 {
+				continue
+			}
+			p := cands[s.Slot%len(cands)]
+			if !p.resume() {
+				tag("truncated:cont")
+				break steps
+			}
+			record("cont", fmt.Sprintf("KCont %d", p.id), "SIGCONT", p)
+			tag("cont")
+
+		case "zombie":
+			if len(e.aliveReady()) == 0 {
+				continue
+			}
+			p := e.ready[s.Slot%len(e.ready)]
+			wasStopped := p.stopped
+			p.holdReap()
+			p.sig = true
+			_ = p.cmd.Process.Kill()
+			select {
+			case <-p.gone:
+			case <-time.After(20 * time.Second):
+				p.destroy()
+				e.dropReady(p)
+				tag("truncated:zombie")
+				break steps
+			}
+			p.stopped = false
+			p.asked = ""
+			p.hangUp()
+			e.dropReady(p)
+			e.zombies = append(e.zombies, p)
+			record("zombie", fmt.Sprintf("KDie %d", p.id), "SIGKILL, not collected by its parent: state "+strings.Trim(string(c19ProcState(p.pid)), "\x00"), p)
+			tag("zombie")
+			if wasStopped {
+				tag("zombie:killed-while-stopped")
+			}
+
+		case "reap":
+			if len(e.zombies) == 0 {
+				continue
+			}
+			p := e.zombies[0]
+			e.zombies = e.zombies[1:]
+			p.release()
+			<-p.done
+			record("reap", fmt.Sprintf("KReap %d", p.id), "collected by its parent", p)
+			tag("reap")
 
 		case "killat":
 			e.curUser = userOf(s.U)
@@ -1530,7 +1929,7 @@ steps:
 						if p.exited() {
 							state[i] = 2
 							lastChange = time.Now()
-						} else if listening(p.port) && !p.exited() {
+						} else if e.serves(p) {
 							state[i] = 1
 							lastChange = time.Now()
 						}
@@ -1611,6 +2010,15 @@ steps:
 	}
 	if e.pidReuse != "" {
 		return Case{Skip: "pid reuse, outside the model's assumption: " + e.pidReuse}
+	}
+	if e.twoUsers {
+		// what is left of that: a file created with a narrower mode (0644) by a process of one user and needed by a
+		// simultaneous one of the other user. The shared directory is the harness's scene, not git-bug's doing.
+		for _, p := range e.procs {
+			if strings.Contains(p.stderr(), "permission denied") {
+				return Case{Skip: fmt.Sprintf("two users: process %d could not use a file a process of the other user had just created (modes of the shared directory)", p.id)}
+			}
+		}
 	}
 	if e.askExpired {
 		return Case{Skip: "the case went on for more than 25 s after a webui was asked to stop (its shutdown gives up after 30 s)"}
